@@ -214,6 +214,13 @@ func (s *Sim) MakeOutputs(total uint64, mode string) OutSpec {
 			spec.Outs[len(spec.Outs)-1] = o
 			spec.Reason = "output-inactive-keyset"
 		}
+	case "mixed-unknown-keyset":
+		spec.Outs = mk(act.Id, client.Split(total))
+		if len(spec.Outs) > 1 {
+			o := client.NewOutput(s.Rng, "00"+client.RandHex(s.Rng, 7), spec.Outs[len(spec.Outs)-1].Amount, "")
+			spec.Outs[len(spec.Outs)-1] = o
+			spec.Reason = "output-unknown-keyset"
+		}
 	case "unknown-keyset":
 		spec.Outs = mk("00"+client.RandHex(s.Rng, 7), client.Split(total))
 		spec.Reason = "output-unknown-keyset"
@@ -242,7 +249,11 @@ func (s *Sim) MakeOutputs(total uint64, mode string) OutSpec {
 
 func (s *Sim) recordSigs(outs []client.Output, sigs cashu.BlindedSignatures, op string) {
 	ks := s.E.Keysets
+	activeId := s.E.M.GetActiveKeyset().Id
 	for i, sig := range sigs {
+		if sig.Id != activeId {
+			s.mismatch(op, "accepted", "signature-not-on-active-keyset", fmt.Sprintf("signature names %s, active keyset is %s", sig.Id, activeId))
+		}
 		if i >= len(outs) {
 			s.mismatch(op, "accepted", "more-signatures-than-outputs", "")
 			break
